@@ -114,7 +114,7 @@ class BundleContainer(object):
         blk_num = self._fix_blk_num(blk)
         pyld_cls = type(blk.payload)
         if blk_num in self._block_num:
-            raise KeyError('add_block() given duplicate block number {}'.foramt(blk_num))
+            raise KeyError('add_block() given duplicate block number {}'.format(blk_num))
 
         blk.ensure_block_type_specific_data()
 
@@ -198,7 +198,7 @@ class BundleContainer(object):
                 blk_num = Bundle.BLOCK_NUM_PAYLOAD
             else:
                 blk_num = self.get_block_num()
-            blk.overloaded_fields['block_num'] = blk_num
+            blk.setfieldval('block_num', blk_num)
         return blk_num
 
     def sort_block_num(self) -> None:
